@@ -7,6 +7,7 @@ CONSTANTS
   Persistent = FALSE
   StartupScrub = TRUE
   EraseOnLookup = FALSE
+  CleanFailedWrite = TRUE
   ListRaw = FALSE
 INVARIANTS C01_ReadExact C01_NoEarlyLoss
 VIEW View
